@@ -51,6 +51,8 @@ pub struct GenOpts {
     pub custom_help: bool,
     /// chains of `adjacent()` commands (`cmd1 --a cmd2 --b cmd1 ..`)
     pub adjacent_cmds: bool,
+    /// a chain of adjacent commands may be reduced with `last()`
+    pub adjacent_cmd_last: bool,
     /// a branch of a (non-repeated) choice may be an adjacent group `--point X Y`
     pub adjacent_branch: bool,
     /// `cmd.fallback(..)` / `cmd.fallback_with(..)`: a subcommand with a default
@@ -95,6 +97,7 @@ impl GenOpts {
             adjacent_in_adjacent: false,
             custom_help: false,
             adjacent_cmds: false,
+            adjacent_cmd_last: false,
             adjacent_branch: false,
             cmd_fallback: false,
             hidden_positionals: false,
@@ -134,6 +137,7 @@ impl GenOpts {
             adjacent_in_adjacent: false,
             custom_help: false,
             adjacent_cmds: false,
+            adjacent_cmd_last: false,
             adjacent_branch: false,
             cmd_fallback: false,
             hidden_positionals: false,
@@ -698,7 +702,13 @@ impl<'a> Pool<'a> {
                 opts,
             })));
         }
-        Spec::wrap(W::Many { catch: false }, self.id(), Spec::Alt(cmds))
+        // `.many()` collects every command of the chain, `.last()` keeps the final one
+        let w = if self.o.adjacent_cmd_last && self.rng.chance(1, 4) {
+            W::Last
+        } else {
+            W::Many { catch: false }
+        };
+        Spec::wrap(w, self.id(), Spec::Alt(cmds))
     }
 
     /// an adjacent group: flag/argument first, then positionals or named arguments
